@@ -143,9 +143,10 @@ class C05(Prop):
         (enable_caching if enabled else disable_caching)()
         outs = []
         try:
+            limit = 120 if (plan.get("cfg") or {}).get("large") else 20
             for i, op in enumerate(plan["ops"]):
                 sim.begin_op(i)
-                with op_watchdog(20):
+                with op_watchdog(limit):
                     if op[0] == "flip":
                         if mode == "C":
                             enabled = not enabled
